@@ -1127,10 +1127,10 @@ func (r *R1) applyBuiltin(name string, a []V) (V, *ctl) {
 		}
 		lz, ok := a[0].(*VLazy)
 		if !ok {
-			panic(Unmodelled{"substitute of a non-lazy value"})
+			return a[0], nil
 		}
 		if lz.IsVal {
-			panic(Unmodelled{"substitute of a value thunk"})
+			return lz.Val, nil // apply/map route: the thunk wraps the evaluated value
 		}
 		return quoteVal(lz.Expr), nil
 	}
